@@ -55,7 +55,7 @@ func (c03) New() interface{} { return &C03Script{} }
 func (c03) Info() core.Info {
 	return core.Info{
 		Runs: map[string]int{"quick": 2000000, "thorough": 150000000},
-		Rule: "Each run starts from a well-formed packet built by the reference serialiser (adaptation_field_length 1..182 with payload or 183 without, any legal subset of optional fields already present, random header and payload) and applies a scripted history of <=40 adaptation-field setter calls (flags, presence toggles incl. repeats of the current value, PCR/OPCR/splice countdown values, private data / extension of length 0..190 biased to 'exactly fills' and 'one too many', value setters for absent fields, SetAdaptationField from another generated packet or the packet itself, read-a-timestamp-and-write-it-back; private data is random or a run of EBP-style tag/length/identifier descriptors). After every call the 188 bytes are compared with the ISO serialisation of a logical adaptation-field model (wildcards for timestamps that became present but were never set), every method and function-style getter is checked, and a call the model says cannot be honoured must return an error and leave all 188 bytes unchanged (capacity exhaustion is the injected fault). Plus a complete sweep of all histories of length <=4 (quick) / <=5 (thorough) over a 12-letter alphabet for 9 adaptation_field_length values. Non-trivial = at least one reach probe fired.",
+		Rule: "Each run starts from a well-formed packet built by the reference serialiser (adaptation_field_length 1..182 with payload or 183 without, any legal subset of optional fields already present, random header and payload) and applies a scripted history of <=40 adaptation-field setter calls (flags, presence toggles incl. repeats of the current value, PCR/OPCR/splice countdown values, private data / extension of length 0..190 biased to 'exactly fills' and 'one too many', value setters for absent fields, SetAdaptationField from another generated packet or the packet itself, read-a-timestamp-and-write-it-back; private data is random or a run of EBP-style tag/length/identifier descriptors). After every call the 188 bytes are compared with the ISO serialisation of a logical adaptation-field model (wildcards for timestamps that became present but were never set), every method and function-style getter is checked, and a call the model says cannot be honoured must return an error and leave all 188 bytes unchanged (capacity exhaustion is the injected fault). Plus a complete sweep of all histories of length <=4 (quick) / <=5 (thorough) over a 12-letter alphabet for 9 adaptation_field_length values. Non-trivial = at least one reach probe fired. Added in waves 19-21: after every step the slices the getters returned are held while a second, unrelated packet is read; private data / extension values may be the getter's own view handed back (edited in place or not), are the front of a longer caller buffer whose remaining bytes must stay untouched, and may extend / truncate / shift the value in place; the packet a field is copied from must be unchanged.",
 		Real: []string{"(*AdaptationField) setters and getters", "(*Packet).SetAdaptationField", "(*Packet).AdaptationField", "packet/adaptationfield function-style readers", "gots.InsertPCR/ExtractPCR"},
 		Stub: []string{"caller (scripted edit history)", "reference adaptation-field serialiser"},
 		Assumptions: []string{
